@@ -30,7 +30,6 @@ reference to `A` to `B`'s `fields` attribute.
 """
 
 import builtins
-import re
 from dataclasses import (
     dataclass,
     field,
@@ -66,6 +65,7 @@ from betterproto.lib.google.protobuf.compiler import CodeGeneratorRequest
 
 from .. import which_one_of
 from ..compile.importing import (
+    WRAPPER_TYPES,
     get_type_reference,
     parse_source_type_name,
 )
@@ -483,13 +483,10 @@ class FieldCompiler(MessageCompiler):
     @property
     def field_wraps(self) -> Optional[str]:
         """Returns betterproto wrapped field type or None."""
-        match_wrapper = re.match(
-            r"\.google\.protobuf\.(.+)Value$", self.proto_obj.type_name
-        )
-        if match_wrapper:
-            wrapped_type = "TYPE_" + match_wrapper.group(1).upper()
-            if hasattr(betterproto, wrapped_type):
-                return f"betterproto.{wrapped_type}"
+        if self.proto_obj.type_name in WRAPPER_TYPES:
+            # ".google.protobuf.BoolValue" -> "TYPE_BOOL"
+            wrapped_type = self.proto_obj.type_name.split(".").pop()[: -len("Value")]
+            return f"betterproto.TYPE_{wrapped_type.upper()}"
         return None
 
     @property
